@@ -30,8 +30,22 @@ parse.docstring) | argparse (an argparse-building function handed to parse.argpa
                                default: anything memoised on `==`/hash of a default leaks one definition's default
                                (and its inferred type) into the next
 
+  live:function|class|class-init
+                               kind `live` / `live-init`: the source of a whole MODULE (typing imports, sometimes a
+                               helper definition, then the target = the last top-level def / class).  The conversion
+                               script writes it to a file, imports it and hands the LIVE object to parse.function /
+                               parse.class_ (`live-init`: parse.class_(cls, merge_inner_function='__init__'), what gen
+                               does): the inspect.signature path, where annotations arrive as str(annotation)
+                               (`typing.Optional[str]`, `typing.List[int]`, `<class 'int'>`) and defaults as objects.
+                               Strata: ann:typing (>= 1 parameter annotated with a typing generic) / ann:typing-many
+                               (>= 2), ann:qualified (`typing.X[...]` spelled in the source), ann:string, ann:builtin,
+                               ann:none; several live points per process (gen forces a share), next to each other and
+                               far apart, so that anything consumed / cached by the first signature read shows
+
 The sequences are drawn so that every kind occurs several times per process and empty / failing / multi-announcement
 points sit between ordinary ones."""
+
+import re
 
 NAMES = ["dataset_name", "batch_size", "epochs", "lr", "momentum", "eps", "shuffle", "optimizer", "K", "as_numpy",
          "tfds_dir", "alpha", "verbose", "seed", "path", "centered", "n_jobs", "tol"]
@@ -385,6 +399,116 @@ def gen_xtype_family(rng):
     return pts
 
 
+# ---- live objects: modules that are written to disk and imported; the object itself is handed to the parser
+TYPING_ANN = ["Optional[str]", "Optional[int]", "List[str]", "List[int]", "Union[int, float]", "Dict[str, int]",
+              "Tuple[int, int]", "Optional[List[str]]", "Sequence[str]", "Iterable[int]", "Optional[float]",
+              "Union[str, int, None]", "Tuple[str, ...]", "Callable[[int], int]", "Any", "Optional[bool]",
+              "List[Optional[str]]", "Dict[str, List[int]]"]
+BUILTIN_ANN = ["int", "str", "float", "bool", "list", "dict", "tuple", "object"]
+LIVE_DEFAULTS = ["None", "None", "None", "5", "0", "'x'", "''", "0.5", "True", "False", "()", "(1, 2)", "-1", "'adam'"]
+TYPING_NAMES = ["Any", "Callable", "Dict", "Iterable", "List", "Optional", "Sequence", "Tuple", "Union"]
+HELPERS = [
+    "def _identity(x):\n    return x\n",
+    "DEFAULT_NAME = 'mnist'\n",
+    "class _Base(object):\n    \"\"\" base \"\"\"\n",
+    "def helper(a: Optional[int] = None):\n    \"\"\"\n    Help\n\n    :param a: an a\n    \"\"\"\n    return a\n",
+]
+
+
+def _live_ann(rng, how):
+    """(annotation as spelled in the source or None, stratum)"""
+    if how == "typing":
+        return rng.choice(TYPING_ANN), "typing"
+    if how == "qualified":
+        return re.sub(r"\b(%s)\b" % "|".join(TYPING_NAMES), r"typing.\1", rng.choice(TYPING_ANN)), "qualified"
+    if how == "string":
+        return repr(rng.choice(TYPING_ANN + BUILTIN_ANN[:4])), "string"
+    if how == "builtin":
+        return rng.choice(BUILTIN_ANN), "builtin"
+    return None, "none"
+
+
+def gen_live(rng, what=None):
+    """one live point: a module whose last top-level definition is the target.
+    what: None | function | class | class-init"""
+    what = what or rng.choice(["function", "function", "class", "class-init"])
+    style = rng.choice(["rest", "rest", "google", "numpydoc"])
+    n = rng.choice([1, 2, 2, 3, 3, 4, 5])
+    idx = rng.sample(range(len(NAMES)), n)
+    profile = rng.choice(["typing", "typing", "typing", "mixed", "mixed", "qualified", "plain"])
+    ps, strata = [], []
+    seen_default = False
+    for i in idx:
+        if profile == "typing":
+            how = rng.choice(["typing", "typing", "typing", "qualified", "none"])
+        elif profile == "qualified":
+            how = rng.choice(["qualified", "qualified", "typing", "builtin"])
+        elif profile == "mixed":
+            how = rng.choice(["typing", "typing", "qualified", "string", "builtin", "none"])
+        else:
+            how = rng.choice(["builtin", "builtin", "none"])
+        ann, st = _live_ann(rng, how)
+        strata.append(st)
+        default = None
+        if seen_default or rng.random() < 0.6:
+            seen_default = True
+            default = rng.choice(LIVE_DEFAULTS)
+        doc_typ = rng.choice(["int", "str", "float", "bool"])
+        ps.append({"name": NAMES[i], "typ": doc_typ, "prose": NOUNS[i] + rng.choice([".", ".", ""]), "how": "0",
+                   "sentence": "", "ann": ann, "default": default,
+                   "show_typ": rng.random() < 0.25})          # mostly the type comes from the signature only
+    # which parameters the docstring documents: all (mostly), a prefix, or a shuffled subset - only the documented
+    # ones meet the signature in the live path
+    r = rng.random()
+    doc_ps = list(ps) if r < 0.7 else ps[:max(1, n - 1)] if r < 0.85 else rng.sample(ps, max(1, n - 1))
+    ret = rng.choice([None, None, ("int", "the result."), ("str", "Trained model")])
+    sig = []
+    for p in ps:
+        s = p["name"]
+        if p["ann"] is not None:
+            s += ": " + p["ann"]
+        if p["default"] is not None:
+            s += (" = " if p["ann"] is not None else "=") + p["default"]
+        sig.append(s)
+    head = ["from typing import %s" % ", ".join(TYPING_NAMES)]
+    if "qualified" in strata or rng.random() < 0.3:
+        head.append("import typing")
+    if rng.random() < 0.2:
+        head.insert(0, rng.choice(["import os", "import sys", "from collections import OrderedDict"]))
+    lines = head + ["", ""]
+    if rng.random() < 0.3:
+        lines += [rng.choice(HELPERS), ""]
+    summary = rng.choice(SUMMARIES)
+    if what == "function":
+        doc = render_doc(rng, style, summary, doc_ps, ret)
+        lines.append("def %s(%s)%s:" % (rng.choice(FUNC_NAMES), ", ".join(sig),
+                                        rng.choice(["", "", " -> int", " -> Optional[str]", " -> List[str]"])))
+        lines.append(_quote(doc, "    "))
+        lines.append("    " + rng.choice(["return None", "return 5", "return %s" % ps[0]["name"], "return 'x'", "pass"]))
+    else:
+        cls_doc_ps = doc_ps if rng.random() < 0.8 else []
+        doc = render_doc(rng, style, summary, cls_doc_ps, None, field="cvar" if style == "rest" else "param")
+        lines.append("class %s(%s):" % (rng.choice(CLASS_NAMES), rng.choice(["object", "object", "_Base"]) if "_Base" in "\n".join(lines) else "object"))
+        lines += [_quote(doc, "    "), ""]
+        for p in [q for q in ps if rng.random() < 0.3]:     # some class-level annotated attributes
+            if p["ann"] is not None and p["default"] is not None:
+                lines.append("    %s: %s = %s" % (p["name"], p["ann"], p["default"]))
+        init_doc = ""
+        if rng.random() < 0.5:
+            init_doc = _quote(render_doc(rng, rng.choice(["rest", "google", "numpydoc"]), "Construct it", doc_ps), "        ")
+        lines += ["", "    def __init__(%s):" % ", ".join(["self"] + sig)]
+        if init_doc:
+            lines.append(init_doc)
+        for p in ps[:3]:
+            lines.append("        self.%s = %s" % (p["name"], p["name"]))
+    src = "\n".join(lines) + "\n"
+    ntyping = sum(1 for s in strata if s in ("typing", "qualified"))
+    tags = ["live:" + what, "style:" + style] + sorted(set("ann:" + s for s in strata))
+    if ntyping >= 2:
+        tags.append("ann:typing-many")
+    return {"kind": "live-init" if what == "class-init" else "live", "src": src, "tags": tags}
+
+
 def gen_point(rng, kind=None, force=None):
     """one point of the new strata.  force: None | many | fails | degenerate | foreign"""
     if force == "foreign":
@@ -458,8 +582,14 @@ def gen(rng, n, filler=None):
         plan.append({0: "fails", 1: "many", 2: "degenerate", 3: "degenerate", 4: "many"}.get(r, None if r < 8 else "filler"))
     # on top of the n points above: one foreign-marker point per 10 and one equal-across-types family per 16
     plan += ["foreign"] * max(2, n // 10) + ["xtype"] * max(2, n // 16)
+    # and live objects (imported modules): one per 12, some of them in pairs next to each other
+    plan += ["live"] * max(4, n // 12) + ["live2"] * max(1, n // 80)
     rng.shuffle(plan)
     for k, force in enumerate(plan):
+        if force in ("live", "live2"):
+            for _ in range(2 if force == "live2" else 1):
+                pts.append(gen_live(rng))
+            continue
         if force == "filler" and filler is not None:
             pts.append(filler(rng))
             continue
